@@ -286,3 +286,42 @@ benign("c09-status-pattern-noncapturing-rewrite", ["C09"], [(M, r'''re.compile(r
 benign("c09-ifexp-none-guard", ["C09"], [(M, '''        if text is None:
             text = b""
         m = self.__error_expr.match(text)''', '''        m = self.__error_expr.match(text if text is not None else b"")''')])
+
+# --------------------------------------------------------------------------- C08
+seeded("w1-foreign-send", ["C08", "C15"], "W1", [(M, '''    def logout(self):''', '''    def raw(self, line: bytes):
+        self.sock.sendall(line + CRLF)
+
+    def logout(self):''')])
+seeded("w1-no-crlf", ["C08"], "W1", [(M, "self.sock.sendall(tosend + CRLF)", "self.sock.sendall(tosend + b\"\\n\")")])
+seeded("w2-escape-dropped", ["C08"], "W2", [(M, '''                    a = a.replace(b"\\\\", b"\\\\\\\\").replace(b'"', b'\\\\"')
+''', '')], "the pre-fix behaviour")
+seeded("w2-escape-order-swapped", ["C08"], "W2", [(M, '''a.replace(b"\\\\", b"\\\\\\\\").replace(b'"', b'\\\\"')''', '''a.replace(b'"', b'\\\\"').replace(b"\\\\", b"\\\\\\\\")''')], "a\"b -> a\\\\\"b : the quote is unescaped again")
+seeded("w2-only-quote-escaped", ["C08"], "W2", [(M, '''a.replace(b"\\\\", b"\\\\\\\\").replace(b'"', b'\\\\"')''', '''a.replace(b'"', b'\\\\"')''')])
+seeded("w3-literal-by-content", ["C08"], "W3", [(M, '''            if isinstance(a, LiteralArgument):
+                ret += [a]
+                continue''', '''            if isinstance(a, bytes) and self.__size_expr.match(a):
+                ret += [a]
+                continue''')], "the pre-fix behaviour")
+seeded("w3-marker-built-in-operation", ["C08"], "W3", [(M, '''        code, data = self.__send_command("SETACTIVE", [scriptname.encode("utf-8")])''', '''        code, data = self.__send_command("SETACTIVE", [LiteralArgument(scriptname.encode("utf-8"))])''')])
+seeded("w4-length-of-text", ["C08"], "W4", [(M, '''return LiteralArgument(b"{%d+}%s%s" % (len(bcontent), CRLF, bcontent))''', '''return LiteralArgument(b"{%d+}%s%s" % (len(content), CRLF, bcontent))''')], "character count instead of octet count; equal for the ASCII script of the suite")
+seeded("w4-synchronising-literal", ["C08"], "W4", [(M, '''return LiteralArgument(b"{%d+}%s%s" % (len(bcontent), CRLF, bcontent))''', '''return LiteralArgument(b"{%d}%s%s" % (len(bcontent), CRLF, bcontent))''')])
+seeded("w4-latin1", ["C08"], "W4", [(M, '''bcontent: bytes = content.encode("utf-8")''', '''bcontent: bytes = content.encode("latin-1", "replace")''')])
+seeded("w5-wrong-verb", ["C08"], "W5", [(M, '''self.__send_command("DELETESCRIPT", [name.encode("utf-8")])''', '''self.__send_command("DELETSCRIPT", [name.encode("utf-8")])''')])
+seeded("w5-size-as-bytes", ["C08"], "W5", [(M, '''"HAVESPACE", [scriptname.encode("utf-8"), scriptsize]''', '''"HAVESPACE", [scriptname.encode("utf-8"), str(scriptsize).encode("utf-8")]''')], "number is sent quoted")
+seeded("w5-name-not-encoded-utf8", ["C08"], "W5", [(M, '''self.__send_command("SETACTIVE", [scriptname.encode("utf-8")])''', '''self.__send_command("SETACTIVE", [scriptname.encode("ascii", "ignore")])''')])
+seeded("w5-double-send", ["C08", "C15"], "W5", [(M, '''        code, data = self.__send_command("SETACTIVE", [scriptname.encode("utf-8")])''', '''        self.__send_command("SETACTIVE", [b""])
+        code, data = self.__send_command("SETACTIVE", [scriptname.encode("utf-8")])''')])
+seeded("w6-control-chars-quoted", ["C08"], "W6", [(M, '''                if b"\\r" in a or b"\\n" in a or b"\\0" in a:''', '''                if b"\\r\\n" in a:''')], "a lone LF or NUL is still put inside quotes")
+
+benign("c08-escape-helper", ["C08"], [(M, '''                    a = a.replace(b"\\\\", b"\\\\\\\\").replace(b'"', b'\\\\"')
+                    ret += [b'"' + a + b'"']''', '''                    ret += [b'"' + a.replace(b"\\\\", b"\\\\\\\\").replace(b'"', b'\\\\"') + b'"']''')])
+benign("c08-not-in-tests", ["C08"], [(M, '''                if b"\\r" in a or b"\\n" in a or b"\\0" in a:
+                    # not representable as a quoted string
+                    ret += [b"{%d+}%s%s" % (len(a), CRLF, a)]
+                else:
+                    a = a.replace(b"\\\\", b"\\\\\\\\").replace(b'"', b'\\\\"')
+                    ret += [b'"' + a + b'"']''', '''                if b"\\r" not in a and b"\\n" not in a and b"\\0" not in a:
+                    a = a.replace(b"\\\\", b"\\\\\\\\").replace(b'"', b'\\\\"')
+                    ret += [b'"' + a + b'"']
+                else:
+                    ret += [b"{%d+}%s%s" % (len(a), CRLF, a)]''')])
